@@ -9,14 +9,11 @@ range, a slice index out of range or off a UTF-8 boundary, `unreachable!`, `asse
 `Site.stack*`).  Site numbers are those of `Total.Sites.table` (`Model/TotalSites.lean`).
 
 The readers run in `TM`, a state monad over `Outcome` whose state `Acct` survives errors: `alloc` is the largest
-single allocation *request* made so far (the argument of `Vec::with_capacity`, `vec![0; n]`, `HashMap::with_capacity`,
-counted in elements; requests whose size is a raw 32-bit field of the input are kept apart in `big`), `depth` the deepest
-recursion level entered so far.
+single allocation *request* made so far (the argument of `Vec::with_capacity`, `HashMap::with_capacity`, the bytes
+`read_u8_vec` gathers with `take(size).read_to_end`), counted in elements.
 
-The stack is a runtime fact (DESIGN §3.5): the models take the number of recursion levels the stack can hold as a
-parameter `gas`; running out of `gas` is `panic Site.stack…`.  `stackBudget` is the value the driver uses: inputs nested
-up to a few hundred levels (all the default generators produce) are far below it, the recorded witnesses far above the
-measured limit of the 8 MiB main-thread stack (between 5 000 and 20 000 levels, depending on the recursion).
+Recursion: since 835fdd2 / cb2ce34 the two input-driven recursions of the class reader carry a depth counter with a
+constant limit (element values: 255, bootstrap arguments: 16); the models recurse structurally on the remaining depth.
 -/
 
 namespace Total
@@ -29,11 +26,8 @@ inductive Outcome (α : Type) where
 
 /-- accounting state; survives `err` and `panic` -/
 structure Acct where
-  /-- largest request whose size is a 16-bit quantity of the input (or smaller) -/
+  /-- largest single allocation request so far -/
   alloc : Nat := 0
-  /-- largest request whose size is a 32-bit field of the input (site 6: `read_u8_vec(length as usize)`) -/
-  big : Nat := 0
-  depth : Nat := 0
   deriving Repr, Inhabited, DecidableEq
 
 /-- the reader monad of the totality models -/
@@ -73,11 +67,6 @@ instance : Monad TM where
 /-- record an allocation request of `n` elements -/
 @[inline] def request (n : Nat) : TM Unit := fun st => (.ok (), { st with alloc := max st.alloc n })
 
-/-- record an allocation request whose size is an unchecked 32-bit field of the input -/
-@[inline] def requestBig (n : Nat) : TM Unit := fun st => (.ok (), { st with big := max st.big n })
-
-/-- record that recursion level `d` has been entered -/
-@[inline] def enter (d : Nat) : TM Unit := fun st => (.ok (), { st with depth := max st.depth d })
 
 /-- run from the empty account -/
 def run {α : Type} (m : TM α) : Outcome α × Acct := m {}
@@ -117,14 +106,10 @@ def u32 : Rd Nat
 def toI16 (n : Nat) : Int := if n < 32768 then (n : Int) else (n : Int) - 65536
 def toI32 (n : Nat) : Int := if n < 2147483648 then (n : Int) else (n : Int) - 4294967296
 
-/-- `read_u8_vec(n)`: `vec![0; n]` (the request is made **before** the bytes are known to exist), then `read_exact` -/
+/-- `read_u8_vec(n)` (8349742): `Vec::new()`, `take(n).read_to_end(..)`, then `read != n => bail!`: the buffer only grows
+with bytes that are present, so the request is `min n |rest|` -/
 def takeVec (n : Nat) : Rd Bytes := fun s => do
-  request n
-  if s.length < n then fail else pure (s.take n, s.drop n)
-
-/-- `read_u8_vec(length as usize)` where `length` is the `u32` attribute length -/
-def takeVecBig (n : Nat) : Rd Bytes := fun s => do
-  requestBig n
+  request (min n s.length)
   if s.length < n then fail else pure (s.take n, s.drop n)
 
 /-- `skip(n)`: `SeekFrom::Current(n)` may move past the end; every later read then fails -/
@@ -152,9 +137,6 @@ def loopN (body : Rd Unit) : Nat → Rd Unit
   | n + 1, s => do
     let (_, s) ← body s
     loopN body n s
-
-/-- the number of stack levels the driver assumes (see the module comment) -/
-def stackBudget : Nat := 4096
 
 /-! ## UTF-8 (the text parsers read `BufRead::lines()`: a line that is not UTF-8 is an `Err`) -/
 
